@@ -135,8 +135,31 @@ func (b ByteSize) FindLargestFittingUnit() rune {
 	return largestUnitRune
 }
 
+// Returns the largest unit that divides the size without remainder,
+// so that the printed number times the unit is exactly the size.
+func (b ByteSize) findLargestExactUnit() rune {
+	largestUnitSize := int64(1)
+	largestUnitRune := 'B'
+
+	for unitRune, unitSize := range unitRuneMap {
+		if int64(b) < unitSize || int64(b)%unitSize != 0 {
+			continue
+		}
+
+		if unitSize < largestUnitSize {
+			continue
+		}
+
+		largestUnitRune = unitRune
+		largestUnitSize = unitSize
+	}
+
+	return largestUnitRune
+}
+
+// The string form is lossless: parsing it yields the same size again.
 func (b ByteSize) String() string {
-	unitRune := b.FindLargestFittingUnit()
+	unitRune := b.findLargestExactUnit()
 	result, _ := b.ToString(unitRune)
 	return result
 }
